@@ -569,7 +569,19 @@ def truth(a):
         return bool(a)
     if a.ty == BOOL:
         return a
+    if a.op == "boolop":
+        return a.args[1]
+    if a.op == "ite":
+        return ite(a.args[0], truth(_unfz1(a.args[1])), truth(_unfz1(a.args[2])))
+    if a.op in ("len",):
+        pass
     return T("truth", (a,), BOOL)
+
+
+def _unfz1(v):
+    if isinstance(v, tuple) and v and v[0] == "#bool":
+        return v[1]
+    return v
 
 
 def land(items):
@@ -611,6 +623,14 @@ def ite(c, a, b):
         return a
     if c.op == "not":
         return ite(c.args[0], b, a)
+    if a is True and b is False:
+        return c
+    if a is False and b is True:
+        return lnot(c)
+    if isinstance(b, T) and b.op == "ite" and veq(b.args[0], c):
+        return ite(c, a, _unfz1(b.args[2]))
+    if isinstance(a, T) and a.op == "ite" and veq(a.args[0], c):
+        return ite(c, _unfz1(a.args[1]), b)
     ty = tyof(a) if tyof(a) == tyof(b) else ANY
     return T("ite", (c, _fz(a), _fz(b)), ty)
 
